@@ -64,6 +64,7 @@ NEST = [
     ("{{(", ")}}", "a"), ("{{[", "]}}", "a"), ("{{{a:", "}}}", "1"), ("{{!", "}}", "a"), ("{{-", "}}", "1"), ("{{a?", ":0}}", "1"), ("{{a?1:", "}}", "2"),
     ("{{a+", "}}", "a"), ("{{a||", "}}", "a"), ("{{a??", "}}", "a"), ("{{a.", "}}", "b"), ("{{a[", "]}}", "0"), ("{{f(", ")}}", "x"), ("{{a&&(b||", ")}}", "c"),
     ("{{typeof ", "}}", "a"), ("{{[...", "]}}", "a"), ("<div a=\"{{(", ")}}\"/>", "a"),
+    ("{{{...", "}}}", "a"), ("{{{b,...", "}}}", "a"), ("{{[a,...[", "]]}}", "b"), ("{{{...a,k:", "}}}", "1"), ("{{f({...", "})}}", "a"),
     (":not(", ")", ".a .b"), (":is(:where(", "))", ".a"), ("calc((", "))", "1rpx + 2px"), ("@media screen{", "}", ".a{}"), ("@layer{@supports (a:b){", "}}", ":host{}"),
     (".a{", "}", "color:red"), ("[", "]", "x"), ("(", ")", "1rpx"), ("f(", ")", ".a"), ("url(", ")", "x"), ("&{", "}", "color:red"),
 ]
